@@ -870,7 +870,8 @@ def _traversal_by_interpretation(ctx):
     if proc is None or err is None:
         return None
     fc_fields = prog.class_fields(fc)
-    decl_tags = sorted({CLASS_TAG[c.name] for c in amod.classes.values() if c.name in CLASS_TAG and 'fqn' in c.fields} | {'file-name', 'import'})
+    decl_tags = sorted({CLASS_TAG[c.name] for c in amod.classes.values() if c.name in CLASS_TAG and 'fqn' in prog.class_fields(c)} |
+                       {'file-name', 'import'})
     # the leaf parsers and their contract
     stubs: Dict[str, Tuple[str, ClassInfo, FuncInfo]] = {}
     for f in jmod.functions.values():
@@ -928,6 +929,8 @@ def _traversal_by_interpretation(ctx):
     counter = [0]
 
     def decl(tag):
+        if tag not in container_of:
+            raise Undecided(f'no parse function by contract for <class> {tag!r}')
         counter[0] += 1
         return {'<class>': tag, '__id__': f'{tag}#{counter[0]}'}
 
